@@ -142,6 +142,8 @@ class Enc:
         self.encoded = False
         self.order = []         # ('mod', r, terms, const) | ('mul', t, a, b) in creation order
         self.linrows = []       # purely linear gate rows: (const, {atom: symmetric coef})
+        self.powers = {}        # atom -> (base atom, exponent): atom is known to equal base^exponent in F_p
+        self.powatom = {}       # (base, exponent) -> canonical atom
         self.linrow_lines = {}  # row index -> (start, end) range of self.lines it emitted
         self.occ = {}           # atom -> number of constraints (gates, lookup inputs) mentioning it
         self.skip_gate = None   # predicate(gate dict) -> True: leave this gate row to a specialised engine
@@ -212,6 +214,35 @@ class Enc:
         self._res[key] = r
         self.order.append(("res", r, [(c, a) for c, a in terms if c], const, m))
         return r
+
+    def zero_rep_lemma(self, limbs):
+        """For a well-formed limb vector (limb_i in [0, base), top limb below its bound) of an emulated
+        element: residue = 0  <=>  limbs are exactly the limbs of m - 1 (zero has a unique well-formed
+        representation). The generic statement is proved by the solver once per parameter set as a side
+        obligation; here it is instantiated on `limbs`."""
+        ex = self.extra
+        m = int(ex["emulated_modulus"], 16)
+        lb, n = int(ex["log2_base"]), int(ex["nb_limbs"])
+        if len(limbs) != n or any(isinstance(l, int) for l in limbs):
+            return
+        msl = m.bit_length() - (n - 1) * lb
+        c = [((m - 1) >> (lb * i)) & ((1 << lb) - 1) for i in range(n)]
+        if not getattr(self, "_zero_side", False):
+            self._zero_side = True
+            decls = []
+            for i in range(n):
+                decls.append(f"(declare-const zl{i} Int)")
+                decls.append(f"(assert (and (<= 0 zl{i}) (< zl{i} {1 << (lb if i < n - 1 else msl)})))")
+            ssum = "(+ 1 " + " ".join(f"(* {1 << (lb * i)} zl{i})" for i in range(n)) + ")"
+            decls.append("(declare-const zr Int)")
+            decls.append("(declare-const zk Int)")
+            decls.append(f"(assert (and (<= 0 zr) (< zr {m}) (= {ssum} (+ zr (* {m} zk)))))")
+            body = "(= (= zr 0) (and " + " ".join(f"(= zl{i} {c[i]})" for i in range(n)) + "))"
+            self.side.append(("zero-representation-unique", decls, body))
+        r = self.residue([((1 << (lb * i)), l) for i, l in enumerate(limbs)], 1, m)
+        wf = "(and " + " ".join(f"(<= 0 {l}) (< {l} {1 << (lb if i < n - 1 else msl)})" for i, l in enumerate(limbs)) + ")"
+        eqs = "(and " + " ".join(f"(= {l} {c[i]})" for i, l in enumerate(limbs)) + ")"
+        self.lines.append(f"(assert (=> {wf} (= (= {r} 0) {eqs})))")
 
     def addmod(self, a, b, m, sign=1):
         """definitional (a + sign*b) mod m for residues a, b in [0, m)"""
@@ -370,6 +401,16 @@ class Enc:
         self.prods[key] = t
         self.prod_list.append((t, a, b))
         self.order.append(("mul", t, a, b))
+        # powers of one variable: x^i * x^j = x^(i+j) whatever the product tree (sound in any commutative ring)
+        pa = self.powers.get(a, (a, 1))
+        pb = self.powers.get(b, (b, 1))
+        if pa[0] == pb[0]:
+            pk = (pa[0], pa[1] + pb[1])
+            self.powers[t] = pk
+            if pk in self.powatom:
+                self.lines.append(f"(assert (= {t} {self.powatom[pk]}))")
+            else:
+                self.powatom[pk] = t
         return t
 
     # ---- constraints --------------------------------------------------------------------------
@@ -447,6 +488,12 @@ class Enc:
                     continue
                 self.modeq([(-1, t)] + [(sym(k, P), self.fmul(x, b)) for k, b in grp] + ([(sym(cx, P), x)] if cx else []), 0)
         terms += [(sym(c, P), n) for n, c in lin.items() if c % P]
+        if len(terms) == 2 and sym(const, P) == 0 and terms[0][0] == -terms[1][0] and abs(terms[0][0]) == 1:
+            # row "cell = product": the cell inherits what is known about the product (powers of a variable)
+            (c1, a1), (c2, a2) = terms
+            for src, dst in ((a1, a2), (a2, a1)):
+                if src in self.powers and dst not in self.powers and self.ub.get(dst, P) >= P:
+                    self.powers[dst] = self.powers[src]
         if self.small_domain_row(terms, sym(const, P)):
             return
         self.modeq(terms, sym(const, P))
